@@ -9,6 +9,7 @@ import (
 	"io/ioutil"
 	"net"
 	"os"
+	"os/exec"
 	"path/filepath"
 	"sort"
 	"strings"
@@ -17,6 +18,7 @@ import (
 
 	"github.com/getlantern/bytemap"
 	"github.com/getlantern/zenodb"
+	"github.com/getlantern/zenodb/rpc"
 	"github.com/getlantern/zenodb/server"
 	"github.com/spaolacci/murmur3"
 )
@@ -42,6 +44,10 @@ type Config struct {
 	// FollowerMaxMemory, if > 0, is the followers' MaxMemoryRatio (a tiny value makes follower-side
 	// scans fail with "out of memory" after 1000 rows)
 	FollowerMaxMemory float64
+	// ProcFollowers runs every follower as a child process (`NodeBin clusternode <spec>`), so that it
+	// can be crashed (SIGKILL / crash points); leaders stay in-process.
+	ProcFollowers bool
+	NodeBin       string
 }
 
 // Node is one server.
@@ -58,6 +64,12 @@ type Node struct {
 	cl        *Cluster
 	up        bool
 	mx        sync.Mutex
+	// process mode
+	proc   bool
+	cmd    *exec.Cmd
+	exited chan struct{}
+	client rpc.Client
+	starts int
 }
 
 // Proxy is a TCP forwarder that can be cut and restored.
@@ -124,7 +136,7 @@ func New(cfg Config) (*Cluster, error) {
 	for p := 0; p < cfg.NumPartitions; p++ {
 		var reps []*Node
 		for j := 0; j < cfg.Redundancy; j++ {
-			n := &Node{Role: "follower", ID: j + 1, Partition: p, Dir: filepath.Join(cfg.Dir, fmt.Sprintf("follower%d_%d", p, j)), cl: c}
+			n := &Node{Role: "follower", ID: j + 1, Partition: p, Dir: filepath.Join(cfg.Dir, fmt.Sprintf("follower%d_%d", p, j)), cl: c, proc: cfg.ProcFollowers}
 			n.Addr = fmt.Sprintf("127.0.0.1:%d", freePort())
 			n.HTTPSAddr = fmt.Sprintf("127.0.0.1:%d", freePort())
 			reps = append(reps, n)
@@ -154,6 +166,9 @@ func (n *Node) Start() error {
 	defer n.mx.Unlock()
 	if n.up {
 		return nil
+	}
+	if n.proc {
+		return n.startProc(nil)
 	}
 	c := n.cl
 	os.MkdirAll(n.Dir, 0755)
@@ -211,6 +226,10 @@ func (n *Node) Stop() {
 	if !n.up {
 		return
 	}
+	if n.proc {
+		n.stopProc()
+		return
+	}
 	n.S.Close()
 	n.up = false
 }
@@ -242,6 +261,12 @@ func (c *Cluster) StartAll() error {
 func (c *Cluster) StopAll() {
 	for _, reps := range c.Followers {
 		for _, f := range reps {
+			if f.proc {
+				// end of the case: nothing is learnt from a clean stop, and a follower with a memory cap
+				// cannot be closed at all (flush on close deadlocks on tablesMutex, see DESIGN observations)
+				f.Kill()
+				continue
+			}
 			f.Stop()
 		}
 	}
